@@ -81,6 +81,13 @@ def product_facts(a, b, v):
     return out
 
 
+def ratio_facts(x, d, q):
+    """facts about q = x / d over the reals (besides q * d = x for d != 0); proved on every run of C08 as a raw lemma"""
+    return [z3.Implies(z3.And(d > 0, x >= 0), q >= 0), z3.Implies(z3.And(d > 0, x > 0), q > 0), z3.Implies(z3.And(d > 0, x <= 0), q <= 0),
+            z3.Implies(z3.And(d > 0, x <= d), q <= 1), z3.Implies(z3.And(d > 0, x < d), q < 1), z3.Implies(z3.And(d > 0, x >= d), q >= 1),
+            z3.Implies(z3.And(d > 0, x == d), q == 1), z3.Implies(z3.And(d != 0, x == 0), q == 0)]
+
+
 def shared_factor_facts(x, y, y2, v, w):
     """facts relating v = x * y and w = x * y2"""
     return [z3.Implies(z3.And(x >= 0, y <= y2), v <= w), z3.Implies(z3.And(x >= 0, y >= y2), v >= w),
@@ -132,9 +139,7 @@ def abstract_products(fmls):
             ctr[0] += 1
             q = z3.Real("ratio!%d" % ctr[0])
             facts.append(z3.Implies(d != 0, prod(q, d) == x))
-            facts.extend([z3.Implies(z3.And(d > 0, x >= 0), q >= 0), z3.Implies(z3.And(d > 0, x > 0), q > 0), z3.Implies(z3.And(d > 0, x <= 0), q <= 0),
-                          z3.Implies(z3.And(d > 0, x <= d), q <= 1), z3.Implies(z3.And(d > 0, x < d), q < 1), z3.Implies(z3.And(d > 0, x >= d), q >= 1),
-                          z3.Implies(z3.And(d > 0, x == d), q == 1), z3.Implies(z3.And(d != 0, x == 0), q == 0)])
+            facts.extend(ratio_facts(x, d, q))
             rdivs[key] = (x, d, q)
         return rdivs[key][2]
 
